@@ -1,2 +1,75 @@
--- driver stub for C04 (replaced when the model is built)
-def main : IO Unit := pure ()
+import PyramidModel.Prelude
+import PyramidModel.ActionsSpec
+/-! Driver for C04: one JSON case per line.
+in : {"top":[node,…]}   node = {"id":n,"disc":null|n|{"dep":k,"a":null|n,"b":null|n},"order":i,"path":[n,…],"adds":[node,…]}
+out: {"out":"ok"|"conflict"|"regress"|"fuel","keys":[sorted…],"regress":null|[order,min_order],
+      "log":[ids in execution order],"discs":[[id,key|null] of the executed actions],"wf":ids distinct,
+      "spec":null | {"out","keys","log"}   (the declarative phase spec; only for programs without adds and thunks)} -/
+open Pyr Pyr.Actions Lean
+
+structure Node where
+  act : Act
+  adds : List Act
+
+def parseNodes : Nat → Json → Except String (List Act × List Node)
+  | 0, _ => throw "nesting too deep"
+  | depth + 1, j => do
+  match j with
+  | .arr xs =>
+    let mut acts : List Act := []
+    let mut nodes : List Node := []
+    for x in xs.toList do
+      let id : Nat ← getAs x "id"
+      let order : Int ← getAs x "order"
+      let path : List Nat ← getAs x "path"
+      let dj ← getField x "disc"
+      let disc ← match dj with
+        | .null => pure Disc.none
+        | .obj _ => do
+          let dep : Nat ← getAs dj "dep"
+          let a : Option Nat ← getAs dj "a"
+          let b : Option Nat ← getAs dj "b"
+          pure (Disc.deferred dep a b)
+        | v => do
+          let n : Nat ← fromJson? v
+          pure (Disc.val n)
+      let aj ← getField x "adds"
+      let (kacts, knodes) ← parseNodes depth aj
+      let a : Act := ⟨id, disc, order, path⟩
+      acts := acts ++ [a]
+      nodes := nodes ++ [⟨a, kacts⟩] ++ knodes
+    pure (acts, nodes)
+  | _ => throw "bad node list"
+
+def sortNat (l : List Nat) : List Nat := (l.toArray.qsort (· < ·)).toList
+
+def outcomeJson (o : Outcome) : List (String × Json) :=
+  match o with
+  | .ok => [("out", "ok"), ("keys", toJson ([] : List Nat)), ("regress", Json.null)]
+  | .conflict ks => [("out", "conflict"), ("keys", toJson (sortNat ks.eraseDups)), ("regress", Json.null)]
+  | .regress a b => [("out", "regress"), ("keys", toJson ([] : List Nat)), ("regress", toJson [a, b])]
+  | .fuel => [("out", "fuel"), ("keys", toJson ([] : List Nat)), ("regress", Json.null)]
+
+def main : IO Unit := jsonDriver fun j => do
+  let tj ← getField j "top"
+  let (top, nodes) ← parseNodes 64 tj
+  let kids : Nat → List Act := fun i =>
+    match nodes.find? (fun n => n.act.id == i) with
+    | some n => n.adds
+    | none => []
+  let ids := nodes.map (·.act.id)
+  let wf := ids.eraseDups.length == ids.length
+  let fuel := nodes.length + 1
+  let r := exec kids fuel (initSt top)
+  let log := r.2.log.reverse
+  let static := nodes.all (fun n => n.adds.isEmpty && n.act.disc.isPlain)
+  let spec : Json :=
+    if static then
+      let s := specRun top
+      Json.mkObj (outcomeJson s.1 ++ [("log", toJson s.2)])
+    else Json.null
+  return Json.mkObj (outcomeJson r.1 ++ [
+    ("log", toJson (log.map (·.id))),
+    ("discs", toJson (log.map fun a => (toJson a.id, toJson a.key))),
+    ("wf", toJson wf),
+    ("spec", spec)])
